@@ -35,6 +35,9 @@ type inner struct {
 var innerData = []map[string]interface{}{
 	{"a": json.Number("1"), "b": "inner"},
 	{"a": map[string]interface{}{"n": []interface{}{json.Number("1"), nil, true}}, "k\x00é": "v", "": json.Number("0")},
+	// used by the instance-reuse streams only
+	{"c": "third", "s": "inner-s"},
+	{"d": []interface{}{json.Number("4")}, "a": "fourth"},
 }
 
 func (in inner) data() map[string]interface{} {
@@ -318,15 +321,31 @@ func factory(name string) func(map[string]interface{}) func(interface{}) (interf
 			return nil
 		}
 		return func(in interface{}) (interface{}, error) {
+			// instance reuse: the behaviour of this call and its log travel in the context
+			// the wrappers expose; otherwise the instance-level state is used
+			b := beh
+			var cs *callState
+			if c, ok := in.(interface{ Context() context.Context }); ok && c.Context() != nil {
+				cs, _ = c.Context().Value(ctxKey{}).(*callState)
+			}
+			if cs != nil {
+				if bb := cs.beh[st.lv]; pos < len(bb) {
+					b = bb[pos]
+				}
+			}
+			kind := "odd"
 			switch in.(type) {
 			case proxy.RequestWrapper:
-				*st.log = append(*st.log, event{"req", st.lv, pos})
+				kind = "req"
 			case proxy.ResponseWrapper:
-				*st.log = append(*st.log, event{"resp", st.lv, pos})
-			default:
-				*st.log = append(*st.log, event{"odd", st.lv, pos})
+				kind = "resp"
 			}
-			switch beh {
+			if cs != nil {
+				cs.add(event{kind, st.lv, pos})
+			} else if st.log != nil {
+				*st.log = append(*st.log, event{kind, st.lv, pos})
+			}
+			switch b {
 			case "fail":
 				return nil, modErr{st.lv, pos}
 			case "ignored":
@@ -670,12 +689,18 @@ func runStack(s sshape, pe, pb pshape, in inner) observed {
 func main() {
 	cfg := out.ParseFlags("C18")
 	registerPool()
+	if strings.HasPrefix(cfg.Extra, "conc:") {
+		concChild(cfg) // child process of the concurrent instance-reuse stream
+		return
+	}
 	r := rng.New(cfg.Seed)
 	w := out.NewWriter(cfg, "Verif.Corr.C18", 400)
 	if cfg.Only >= 0 {
 		// replay of one case: the writer may have no sample to report (JSON null otherwise)
 		w.Meta["samples"] = []interface{}{}
 	}
+
+	reuseCorpus(w)
 
 	// ---- static middleware
 	staticCase := func(s sshape, in inner) {
@@ -693,7 +718,7 @@ func main() {
 		w.Count("inner:" + in.key())
 		w.Add(term, js, "", "S|"+s.key()+"|"+in.key(), s.kind == "ok" && len(s.data) > 0)
 	}
-	inners := allInner(len(innerData))
+	inners := allInner(2)
 	// regression corpus: the two outcomes static_test.go uses, plus the corner cases
 	for _, st := range []string{"incomplete", "complete", "errored"} {
 		staticCase(sshape{kind: "ok", data: staticData[2], strategy: sp(st)}, inner{0, false, ""})
@@ -934,7 +959,9 @@ func main() {
 		stackCase(s, pe, pb, inners[r.Intn(len(inners))])
 	}
 
-	w.Close(fmt.Sprintf("static middleware: %d strategy values (5 names, absent, non-string, unknown/misspelt) x %d inner outcomes (nil / Data nil / empty / non-empty, complete or not, with or without error) x data sets (empty, disjoint, overriding, nested, odd keys) + every non-configuration shape; "+
+	reuseStreams(cfg, w, r)
+
+	w.Close(fmt.Sprintf("instance reuse: one static / plugin / DefaultFactory proxy serving sequences of 5-7 different inner outcomes and failing-modifier choices (each step a normal case), and the same instances hit by 12 goroutines over 12 distinct inputs (each distinct (input, observation) once); static middleware: %d strategy values (5 names, absent, non-string, unknown/misspelt) x %d inner outcomes (nil / Data nil / empty / non-empty, complete or not, with or without error) x data sets (empty, disjoint, overriding, nested, odd keys) + every non-configuration shape; "+
 		"plugin middlewares (endpoint and backend constructor): every sequence over {request,response}x{ok,fail} of length <= %d (every failing subset) x %d inner outcomes, every sequence of length <= %d over the 14-letter alphabet (request/response/both x ok/fail/non-wrapper result/nil factory, unknown name, non-string), random lists up to 9 with duplicate names; "+
 		"DefaultFactory stack with one backend: 6 strategies x 6 endpoint x 5 backend modifier lists x 5 backend results + random; nontrivial = static data non-empty / at least one configured name / stack case",
 		len(strategies), len(inners), maxSmall, nIn, maxFull), true)
